@@ -339,6 +339,11 @@ def main(argv=None):
 
     def on_alarm(signum, frame):
         print('HARNESS-ERROR: %s timed out after %d s' % (prop_id, cap), flush=True)
+        try:
+            for d in list(stage.LIVE):
+                stage.unstage(d)
+        except Exception:  # noqa
+            pass
         os._exit(2)
     signal.signal(signal.SIGALRM, on_alarm)
     signal.alarm(cap)
